@@ -146,7 +146,9 @@ def one_case(ctx, ge, alg, regs, cfg, name, op):
             vals = [[1 + i for i, _ in enumerate(ks)] for ks in keysets]
         else:
             vals = [values(rng, alg, ks, kind, f'{tag}{j}_') for j, ks in enumerate(keysets)]
-        mvs = [gen.mv_from(alg, ks, v) for ks, v in zip(keysets, vals)]
+        from kingdon.multivector import MultiVector
+        # keep the key container as it is (a range stays a range): the cache is looked up with mv.keys()
+        mvs = [MultiVector.fromkeysvalues(alg, ks if isinstance(ks, range) else tuple(ks), v if hasattr(v, 'shape') else list(v)) for ks, v in zip(keysets, vals)]
         return target(*mvs)
 
     def observe(kind, tag):
